@@ -566,9 +566,26 @@ def rule_dialect_triple(rep: Report, rid="C05.triple") -> None:
                         and isinstance(n.value, ast.Name) and n.value.id == "self":
                     writers[n.attr].add(fi.qualname)
     cd = f"{MQ}.{N.CHANGE_DIALECT}"
+    # ... or by a helper that only the dialect switch (or such a helper) calls: part of the switch, under another name
+    allowed = {cd}
+    grew = True
+    while grew:
+        grew = False
+        for w in sorted(set().union(*writers.values()) - allowed):
+            nm = w.rsplit(".", 1)[1]
+            callers = set()
+            for g in f.all_functions():
+                if g.module.name.startswith("scripts"):
+                    continue
+                for n in ast.walk(g.node):
+                    if isinstance(n, ast.Call) and ((isinstance(n.func, ast.Attribute) and n.func.attr == nm) or (isinstance(n.func, ast.Name) and n.func.id == nm)):
+                        callers.add(g.qualname)
+            if callers and callers <= allowed and nm.startswith("_") and not nm.startswith("__"):
+                allowed.add(w)
+                grew = True
     for a in sorted(group):
-        rep.ob(rid, f"matcher attribute {a} is written only by _change_dialect", writers[a] == {cd}, file=MFILE, function=cd,
-               expected=[cd], found=sorted(writers[a]))
+        rep.ob(rid, f"matcher attribute {a} is written only by _change_dialect", bool(writers[a]) and writers[a] <= allowed and (cd in writers[a] or len(allowed) > 1),
+               file=MFILE, function=cd, expected=sorted(allowed), found=sorted(writers[a]))
     # inside _change_dialect: all three written on the same paths, after the unknown-dialect raise
     I = new_interp()
     fi = I.facts.func(cd)
